@@ -474,6 +474,15 @@ func sameStrings(a, b []string) (bool, int) {
 
 var floatMark = []byte{1, 127, 2}
 
+// jpFloat is the text jp writes for a float constant (appendFloat of jp/string.go, since b3b14ce).
+func jpFloat(f float64) string {
+	t := fmtFloat(f)
+	if strings.ContainsAny(t, ".eNI") {
+		return t
+	}
+	return t + ".0"
+}
+
 // canonFloats replaces every <mark>text<mark> of a model print of a PARSED object by
 // FormatFloat(ParseFloat(text)).
 func canonFloats(b []byte) []byte {
@@ -492,7 +501,7 @@ func canonFloats(b []byte) []byte {
 		}
 		out = append(out, b[:i]...)
 		f, _ := strconv.ParseFloat(string(b[i+3:i+3+j]), 64)
-		out = append(out, fmtFloat(f)...)
+		out = append(out, jpFloat(f)...)
 		b = b[i+j+6:]
 	}
 }
@@ -624,11 +633,6 @@ func violation(class, what string, devs string, c *Case, extra map[string]any) {
 	if devs != "-" && devs != "" {
 		for _, d := range strings.Split(devs, ",") {
 			id := "C14-" + d
-			if d == "equal-prec" && !c.pinnedEqualPrec() {
-				// the Lean predicate reads the REGENERATED precedence numbers; with the numbers of the pinned
-				// tree this object has no right operand of equal precedence, so this is not the known finding
-				continue
-			}
 			if lib.HasKnown(knownList, id) {
 				if !strings.Contains(devs, ",") {
 					rep.Count("known.alone."+d, 1) // this deviation is the only one named for the object
@@ -642,49 +646,6 @@ func violation(class, what string, devs string, c *Case, extra map[string]any) {
 		}
 	}
 	rep.Add(lib.Finding{Kind: "violation", Class: class, What: what, Replay: r})
-}
-
-// pinnedEqualPrec: with the precedence numbers of the pinned tree (precOf), does some infix operator of the
-// object have an infix right operand of the same precedence?
-func (c *Case) pinnedEqualPrec() bool {
-	var inExpr func(x ExprD) bool
-	var inEq func(e *EqD) bool
-	infix := func(e *EqD) (int, bool) {
-		if e == nil || e.Op == "" || e.R == nil || e.Op == "match" || e.Op == "search" {
-			return 0, false
-		}
-		p, ok := precOf[e.Op]
-		return p, ok
-	}
-	inEq = func(e *EqD) bool {
-		if e == nil {
-			return false
-		}
-		if e.Op == "" {
-			return e.Val.Kind == 'x' && inExpr(e.Val.X)
-		}
-		if p, ok := infix(e); ok {
-			if q, ok2 := infix(e.R); ok2 && p == q {
-				return true
-			}
-		}
-		return inEq(e.L) || inEq(e.R)
-	}
-	inExpr = func(x ExprD) bool {
-		for _, f := range x {
-			if f.Kind == 'F' && inEq(f.Eq) {
-				return true
-			}
-		}
-		return false
-	}
-	switch c.Kind {
-	case "expr":
-		return inExpr(c.X)
-	case "eqn":
-		return inEq(c.E)
-	}
-	return false
 }
 
 func q(b []byte) string { return fmt.Sprintf("%q", trunc(string(b), 300)) }
